@@ -9,12 +9,14 @@ EVALUATING the function (its callees in the same file, and methods of the argume
 source) on each constant.
 
 The subset is deliberately small; anything outside it raises EvalError, which the caller turns into a GEN-ERROR:
-  values       an enum constant of the input enum, `true` / `false`, tuples, and SYMBOLS: any other path is a
-               constructor name the evaluator does not interpret (`ansi_term::Color::Black`)
+  values       an enum constant of the input enum, `true` / `false`, tuples, SYMBOLS (any other path is a
+               constructor name the evaluator does not interpret: `ansi_term::Color::Black`) and constructor
+               applications (`Some(x)`, `anstyle::Color::Ansi(c)`; `None`)
   expressions  paths, tuples, parentheses, blocks of `let`s with a tail, `if` / `if let`, `match` (or-patterns,
                `_`, bindings, tuple patterns, constants, bool literals, guards), `matches!`, `!` `&&` `||` `==` `!=`,
                `.0`-style tuple fields, calls of free functions of the file, method calls on an enum constant
-               (resolved in the `impl` of the enum given by the caller), `return` as the last thing evaluated
+               (resolved in the `impl` of the enum given by the caller), Option's `as_ref` / `copied` / `map` /
+               `unwrap_or` / `is_some` / `is_none` / `map_or`, `return`
 Soundness does not rest on this evaluator: the tables it yields are DATA for the hand model; the function
 translator translates the same functions and Proofs/*Gen.v prove translation = hand model over those tables, so a
 table read off wrongly can only make a proof fail."""
@@ -70,9 +72,20 @@ class Evaluator:
             q = segs[:-1]
             if q == self.enum_path or (self.in_enum_impl and q in (["Self"], [self.enum_name])):
                 return ("enum", segs[-1])
+        if segs == ["None"]:
+            return ("ctor", "None", [])
         if len(segs) < 2:
             raise EvalError("unbound name %s" % segs[0])
         return ("sym", "::".join(segs))
+
+    @staticmethod
+    def parent(path):
+        return path.rsplit("::", 1)[0] if "::" in path else ("Option" if path in ("Some", "None") else "Result" if path in ("Ok", "Err") else path)
+
+    def same_type(self, a, b, what):
+        """two constructor names of one enum (same parent path)?  Anything else cannot be compared"""
+        if self.parent(a) != self.parent(b):
+            raise EvalError("%s: %s against %s" % (what, a, b))
 
     # -- functions ------------------------------------------------------------
     def free_fn(self, name):
@@ -111,8 +124,11 @@ class Evaluator:
         finally:
             self.depth -= 1
 
-    def run(self, fn_name, variant):
-        return self.apply(self.free_fn(fn_name), [("enum", variant)])
+    def run(self, fn_name, variant, wrap=()):
+        v = ("enum", variant)
+        for c in wrap:          # constructors applied to the constant, innermost first
+            v = ("ctor", c, [v])
+        return self.apply(self.free_fn(fn_name), [v])
 
     # -- patterns -------------------------------------------------------------
     def bind(self, p, v, env):
@@ -133,9 +149,22 @@ class Evaluator:
             return True
         if k == "ppath":
             c = self.const(p.segs)
+            if c[0] in ("sym", "ctor") and v[0] in ("sym", "ctor"):
+                self.same_type(c[1], v[1], "pattern")
+                return c[1] == v[1]
             if c[0] != v[0]:
                 raise EvalError("pattern %s against %r" % ("::".join(p.segs), v))
             return c == v
+        if k == "ptstruct":
+            path = "::".join(p.segs)
+            if v[0] not in ("sym", "ctor"):
+                raise EvalError("pattern %s(..) against %r" % (path, v))
+            self.same_type(path, v[1], "pattern")
+            if v[0] == "sym" or path != v[1]:
+                return False
+            if len(p.elems) != len(v[2]) or any(x.kind == "prest" for x in p.elems):
+                raise EvalError("pattern %s(..): %d fields against %d" % (path, len(p.elems), len(v[2])))
+            return all(self.bind(x, y, env) for x, y in zip(p.elems, v[2]))
         if k == "por":
             for a in p.alts:
                 e2 = dict(env)
@@ -192,7 +221,7 @@ class Evaluator:
             if len(e.segs) == 1:
                 if e.segs[0] in env:
                     return env[e.segs[0]]
-                raise EvalError("unbound name %s" % e.segs[0])
+                return self.const(e.segs)
             return self.const(e.segs)
         if k == "tuple":
             return ("tuple", [self.expr(x, env) for x in e.elems])
@@ -240,22 +269,64 @@ class Evaluator:
                 raise EvalError("call of an expression")
             args = [self.expr(a, env) for a in e.args]
             segs = [s for s in e.f.segs if s not in ("crate", "self")]
-            if len(segs) == 1:
+            if len(segs) == 1 and (segs[0] not in ("Some", "Ok", "Err") or find_items(self.items, "fn", segs[0])):
                 return self.apply(self.free_fn(segs[0]), args)
+            if segs[-1][:1].isupper() and not (segs[:-1] == self.enum_path):
+                return ("ctor", "::".join(segs), args)       # a tuple-variant / tuple-struct constructor
             if segs[:-1] in (self.enum_path, ["Self"] if self.in_enum_impl else None) and args and args[0][0] == "enum":
                 return self.call_method(segs[-1], args[0], args[1:])      # `AnsiColor::is_bright(color)`
             raise EvalError("call of %s" % "::".join(e.f.segs))
         if k == "mcall":
             recv = self.expr(e.recv, env)
+            if recv[0] == "ctor" and recv[1] in ("Some", "None"):
+                return self.option_method(e, recv, env)
             args = [self.expr(a, env) for a in e.args]
             if recv[0] == "enum":
                 return self.call_method(e.name, recv, args)
             if e.name in ("clone", "to_owned") and not args:
                 return recv
+            if recv[0] == "ctor" and recv[1] in ("Some", "None"):
+                return self.option_method(e, recv, env)
             raise EvalError("method %s on %r" % (e.name, recv))
         if k == "return":
             raise _Return(self.expr(e.e, env) if e.e is not None else ("tuple", []))
         raise EvalError("expression %s%s" % (k, (" " + e.op) if k in ("unary", "binary") else ""))
+
+    def callable(self, f, env):
+        """a function value: the name of a free function of the file, or a closure"""
+        if f.kind == "path" and len(f.segs) == 1 and f.segs[0] not in env:
+            fn = self.free_fn(f.segs[0])
+            return lambda *a: self.apply(fn, list(a))
+        if f.kind == "closure":
+            def call(*a):
+                if len(a) != len(f.params):
+                    raise EvalError("closure: wrong number of arguments")
+                env2 = dict(env)
+                for (pat, _ty), v in zip(f.params, a):
+                    if not self.bind(pat, v, env2):
+                        raise EvalError("closure: parameter pattern does not match")
+                return self.expr(f.body, env2)
+            return call
+        raise EvalError("a function argument that is neither a function of the file nor a closure")
+
+    def option_method(self, e, recv, env):
+        some = recv[1] == "Some"
+        name, a = e.name, e.args
+        if name in ("as_ref", "copied", "cloned", "as_deref") and not a:
+            return recv
+        if name in ("is_some", "is_none") and not a:
+            return ("bool", some == (name == "is_some"))
+        if name == "map" and len(a) == 1:
+            return ("ctor", "Some", [self.callable(a[0], env)(recv[2][0])]) if some else recv
+        if name == "unwrap_or" and len(a) == 1:
+            d = self.expr(a[0], env)
+            return recv[2][0] if some else d
+        if name == "map_or" and len(a) == 2:
+            d = self.expr(a[0], env)
+            return self.callable(a[1], env)(recv[2][0]) if some else d
+        if name in ("is_some_and",) and len(a) == 1:
+            return self.callable(a[0], env)(recv[2][0]) if some else ("bool", False)
+        raise EvalError("Option::%s" % name)
 
     def call_method(self, name, recv, args):
         fn = self.method(name)
@@ -281,11 +352,14 @@ def show(v):
         return v[1]
     if v[0] == "tuple":
         return "(" + ",".join(show(x) for x in v[1]) + ")"
+    if v[0] == "ctor":
+        return v[1] + ("(" + ",".join(show(x) for x in v[2]) + ")" if v[2] else "")
     raise EvalError("an enum constant as result")
 
 
-def graph(src, fn_name, enum_path, enum_src, variants, what):
-    """[(variant, whitespace-free text of fn_name(<enum>::variant))] for every variant, in the order of `variants`"""
+def graph(src, fn_name, enum_path, enum_src, variants, what, wrap=()):
+    """[(variant, whitespace-free text of fn_name(<enum>::variant))] for every variant, in the order of `variants`;
+    with wrap = (c1, c2, ..) the argument is c2(c1(<enum>::variant))"""
     items = parse(src, what)
     ev = Evaluator(items, enum_path, parse(enum_src, "source of %s" % enum_path, uses=False))
     if sorted(ev.variants) != sorted(variants):
@@ -293,7 +367,7 @@ def graph(src, fn_name, enum_path, enum_src, variants, what):
     out = []
     for v in variants:
         try:
-            out.append((v, show(ev.run(fn_name, v))))
+            out.append((v, show(ev.run(fn_name, v, wrap))))
         except RecursionError:
             raise EvalError("%s: %s(%s): recursion" % (what, fn_name, v))
         except EvalError as e:
